@@ -94,6 +94,11 @@ package xlsx
 //@   loop 6:
 //@     invariant same(sheet.Name, name) && sheet.Index == index && sheet.MaxRow == maxRow - 1 && sheet.MaxCol == maxCol && len(sheet.Rows) == maxRow
 //@     invariant forall k int :: {sheet.Rows[k]} 0 <= k && k < len(sheet.Rows) ==> len(sheet.Rows[k]) == maxCol + 1
+//@     step placed_at_the_referenced_column: !ParseCellRef$2(cellXML.R) && 0 <= ParseCellRef(cellXML.R) && ParseCellRef(cellXML.R) <= maxCol ==> sheet.Rows[rowIdx][ParseCellRef(cellXML.R)].RawValue == cellXML.V && sheet.Rows[rowIdx][ParseCellRef(cellXML.R)].Formula == cellXML.F && sheet.Rows[rowIdx][ParseCellRef(cellXML.R)].StyleIndex == cellXML.S
+//@     step shared_string_value: !ParseCellRef$2(cellXML.R) && 0 <= ParseCellRef(cellXML.R) && ParseCellRef(cellXML.R) <= maxCol && cellXML.T == "s" ==> sheet.Rows[rowIdx][ParseCellRef(cellXML.R)].Type == CellTypeString && (!strconv.Atoi$1(cellXML.V) && 0 <= strconv.Atoi(cellXML.V) && strconv.Atoi(cellXML.V) < len(r.sharedStrings) ==> sameseq(sheet.Rows[rowIdx][ParseCellRef(cellXML.R)].Value, r.sharedStrings[strconv.Atoi(cellXML.V)]))
+//@     step boolean_value: !ParseCellRef$2(cellXML.R) && 0 <= ParseCellRef(cellXML.R) && ParseCellRef(cellXML.R) <= maxCol && cellXML.T == "b" ==> sheet.Rows[rowIdx][ParseCellRef(cellXML.R)].Type == CellTypeBoolean && (cellXML.V == "1" ? sheet.Rows[rowIdx][ParseCellRef(cellXML.R)].Value == "TRUE" : sheet.Rows[rowIdx][ParseCellRef(cellXML.R)].Value == "FALSE")
+//@     step error_and_formula_string_values: !ParseCellRef$2(cellXML.R) && 0 <= ParseCellRef(cellXML.R) && ParseCellRef(cellXML.R) <= maxCol && (cellXML.T == "e" || cellXML.T == "str") ==> sheet.Rows[rowIdx][ParseCellRef(cellXML.R)].Value == cellXML.V
+//@     step no_other_cell_is_touched: forall a int, b int :: {sheet.Rows[a][b]} 0 <= a && a < len(sheet.Rows) && 0 <= b && b <= maxCol && !(a == rowIdx && !ParseCellRef$2(cellXML.R) && b == ParseCellRef(cellXML.R)) ==> sheet.Rows[a][b] == prev(sheet.Rows)[a][b]
 //@   loop 7:
 //@     invariant same(sheet.Name, name) && sheet.Index == index && sheet.MaxRow == maxRow - 1 && sheet.MaxCol == maxCol && len(sheet.Rows) == maxRow
 //@     invariant forall k int :: {sheet.Rows[k]} 0 <= k && k < len(sheet.Rows) ==> len(sheet.Rows[k]) == maxCol + 1
